@@ -2,7 +2,8 @@
 Line-protocol driver for C10: runs the hand model `YouVerif.C10.step` with the executable `Prim`
 (Keccak-256 + secure-MPT root) on the operation lines the Go harness sends.  One response line per line.
 
-  RESET                                   fresh empty state                                  -> ok
+  RESET                                   fresh empty state (all slots)                      -> ok
+  FORK n | SLOT n                         copy the current model state into slot n / make slot n current   -> ok
   SB a n | AB a n | UB a n | SN a n       SetBalance / AddBalance / SubBalance / SetNonce    -> ok
   SC a code | SS a slot value             SetCode / SetState                                 -> ok
   SU a | CA a                             Suicide / (CreateAccount; SetNonce 1)              -> ok
@@ -119,7 +120,6 @@ def parseOp : List String → Option Op
 
 def stepLine (s : St) (line : String) : St × String :=
   match fields line with
-  | ["RESET"] => ({}, "ok")
   | ["GV"] => (s, "ok")
   | ["OBS"] => (s, showObs (obs P s))
   | ["DUMP"] => (s, showDump s.t)
@@ -138,4 +138,28 @@ def stepLine (s : St) (line : String) : St × String :=
       | _ => (s', "ok")
     | none => (s, "bad-op")
 
-def main : IO Unit := runLoop ({} : St) stepLine
+/-- several model states side by side (one per real StateDB the harness drives after a Copy): value semantics means a
+copy is just another slot holding the same value -/
+structure Slots where
+  slots : Array St := #[{}]
+  cur : Nat := 0
+
+def stepSlots (d : Slots) (line : String) : Slots × String :=
+  match fields line with
+  | ["RESET"] => ({}, "ok")
+  | ["SLOT", n] =>
+    match nat? n with
+    | some k => if k < d.slots.size then ({ d with cur := k }, "ok") else (d, "bad-op")
+    | none => (d, "bad-op")
+  | ["FORK", n] =>
+    match nat? n with
+    | some k =>
+      let cur := d.slots.getD d.cur {}
+      if k < d.slots.size then ({ d with slots := d.slots.set! k cur }, "ok")
+      else if k = d.slots.size then ({ d with slots := d.slots.push cur }, "ok") else (d, "bad-op")
+    | none => (d, "bad-op")
+  | _ =>
+    let (s', out) := stepLine (d.slots.getD d.cur {}) line
+    ({ d with slots := d.slots.set! d.cur s' }, out)
+
+def main : IO Unit := runLoop ({} : Slots) stepSlots
